@@ -79,6 +79,28 @@ fn cmp_vec(name: &str, got: &[C64], want: &[C64], abs_bound: f64, rel: f64) -> R
     Ok(worst)
 }
 
+/// product comparison: rounding noise on every coefficient; the zero tolerance may remove LEADING coefficients only, so
+/// its allowance applies above the order of the returned polynomial and nowhere else
+fn cmp_prod(name: &str, got: &[C64], want: &[C64], order: usize, noise: f64, tol: f64) -> Result<f64, String> {
+    let mut worst: f64 = 0.0;
+    for k in 0..got.len().max(want.len()) {
+        let g = got.get(k).copied().unwrap_or(c(0.0, 0.0));
+        let w = want.get(k).copied().unwrap_or(c(0.0, 0.0));
+        if !(g.re.is_finite() && g.im.is_finite()) {
+            return Err(format!("{name}: coefficient of x^{k} is not finite"));
+        }
+        let err = (g - w).norm();
+        let bound = noise + if k > order { 1.5 * tol } else { 0.0 };
+        if !(err <= bound) {
+            return Err(format!("{name}: coefficient of x^{k} is {g:e}, coefficient algebra gives {w:e} (|diff| {err:e} > {bound:e}; returned order {order})"));
+        }
+        if bound > 0.0 {
+            worst = worst.max(err / bound);
+        }
+    }
+    Ok(worst)
+}
+
 fn run_field<N: Fld>(case: &Case, mut o: Obs) -> Outcome {
     let z = |p: &(f64, f64)| if N::COMPLEX { c(p.0, p.1) } else { c(p.0, 0.0) };
     let a: Vec<C64> = case.a.iter().map(z).collect();
@@ -210,7 +232,7 @@ fn run_field<N: Fld>(case: &Case, mut o: Obs) -> Outcome {
         o.label("degree-claim");
     }
     for (name, p) in &forms {
-        match cmp_vec(name, &coefs(p, upto.max(p.order() + 2)), &prod, pbound, 0.0) {
+        match cmp_prod(name, &coefs(p, upto.max(p.order() + 2)), &prod, p.order(), noise, tol) {
             Ok(w) => prod_worst = prod_worst.max(w),
             Err(m) => return o.fail(m),
         }
@@ -241,7 +263,7 @@ fn run_field<N: Fld>(case: &Case, mut o: Obs) -> Outcome {
             }),
         ];
         for (name, p) in &mixed {
-            if let Err(m) = cmp_vec(name, &coefs(p, upto.max(p.order() + 2)), &prod, pbound, 0.0) {
+            if let Err(m) = cmp_prod(name, &coefs(p, upto.max(p.order() + 2)), &prod, p.order(), noise, tol) {
                 return o.fail(m);
             }
             if p.order() != na + nb - 2 {
@@ -454,7 +476,7 @@ pub fn run(opts: &Opts) -> i32 {
     }
     spec.cases = opts.tier.pick(60_000, 2_000_000);
     spec.essential = vec![("fft", 0.4), ("complex", 0.3), ("degree-claim", 0.2), ("linear-path", 0.03), ("scalar-path", 0.03)];
-    spec.rule = "generated: pairs of coefficient vectors of length 1..41 (quick) / 1..129 (thorough), magnitudes 10^[-3,3] with random signs, shapes dense/sparse/palindromic/tiny-trailing/tiny-leading, lengths biased to 1,2,3 and 2^k-1,2^k,2^k+1; real and complex; zero tolerance either 10^[0.5,4] x ((16+N) eps |a|_1 |b|_1) or absolute 10^[-14,-6]; one case in twelve has a loose absolute tolerance 10^[-6,-1] with one operand a constant (or short) whose leading coefficient lies just below it. Oracle: naive O(n^2) coefficient algebra in the harness; +,-,neg,scalar ops through every owned/borrowed/assigning form within 4 eps relative; products (8 forms incl. commuted and assigning) within (16+N) eps |a|_1|b|_1 + 1.5 tol (N = FFT size), degree = sum of degrees when noise < tol < |lead|/2, pointwise product; with a looser tolerance on the right operand the product is still formed under the left operand's; dft = values at roots of unity (either orientation) and idft(dft(p)) = p. Non-trivial = both operands of length >= 3 (FFT path) or complex field. Distinct = distinct case JSON.".into();
+    spec.rule = "generated: pairs of coefficient vectors of length 1..41 (quick) / 1..129 (thorough), magnitudes 10^[-3,3] with random signs, shapes dense/sparse/palindromic/tiny-trailing/tiny-leading, lengths biased to 1,2,3 and 2^k-1,2^k,2^k+1; real and complex; zero tolerance either 10^[0.5,4] x ((16+N) eps |a|_1 |b|_1) or absolute 10^[-14,-6]; one case in twelve has a loose absolute tolerance 10^[-6,-1] with one operand a constant (or short) whose leading coefficient lies just below it. Oracle: naive O(n^2) coefficient algebra in the harness; +,-,neg,scalar ops through every owned/borrowed/assigning form within 4 eps relative; products (8 forms incl. commuted and assigning) within (16+N) eps |a|_1|b|_1 (N = FFT size) up to the returned order and + 1.5 tol above it (the zero tolerance may remove leading coefficients only), degree = sum of degrees when noise < tol < |lead|/2, pointwise product; with a looser tolerance on the right operand the product is still formed under the left operand's; dft = values at roots of unity (either orientation) and idft(dft(p)) = p. Non-trivial = both operands of length >= 3 (FFT path) or complex field. Distinct = distinct case JSON.".into();
     spec.assumptions = vec!["naive harness product error (<= (n+m) eps |a|_1|b|_1) is inside the 64 eps allowance".into()];
     spec.max_shrink_iters = 2000;
     run_spec(spec, opts)
